@@ -829,6 +829,7 @@ REFINEMENT_THEOREMS.update({
     "Mov_moffs16_AX": ("C01", "C01_mov_moffs_acc_32_16_8"), "Mov_moffs8_AL": ("C01", "C01_mov_moffs_acc_32_16_8"),
     "Xorps_xmm_xmmm128": ("C01", "C01_xmm"), "Movups_xmm_xmmm128": ("C01", "C01_xmm"), "Movups_xmmm128_xmm": ("C01", "C01_xmm"),
     "Movd_xmm_rm32": ("C01", "C01_xmm"), "Movd_rm32_xmm": ("C01", "C01_xmm"),
+    "Cpuid": ("C01", "C01_cpuid"),
     "Idiv_rm16": ("C06", "C06_idiv_rm16"), "Idiv_rm8": ("C06", "C06_idiv_rm8"), "Push_rm16": ("C04", "C04_push_rm16"),
 })
 
@@ -931,8 +932,14 @@ def instr_check(prop_id, tier, seed, gen_filter=None, extra_cases=None, with_hw=
             cid, first = tb[0]
             broken.append(("correspondence", "impl<->generated model differ on %d cases (%s), e.g. %s: impl `%s` model `%s`" % (
                 len(tb), prof, cid, first[0], first[1])))
-            if len(violations) < 3 and prop_id == "C19" and any("panic" in l for l in ti.get(cid, [])):
-                pass
+        if prop_id == "C19":
+            # a crash that the regenerated model predicts as well (an overflow check that fires in the overflow-checked
+            # profile, say) agrees in the tie and would go unnoticed there: look at the implementation's result itself
+            for cid in ids:
+                pl = [l for l in ti.get(cid, []) if l.startswith(("r panic", "r harness-panic"))]
+                if pl and len(violations) < 3:
+                    violations.append(("%s: a step crashed (%s profile): %s" % (cid.split(":")[1], prof, pl[0][:200]),
+                                       dict(case=blocks[cid], impl=ti[cid], profile=prof)))
     if badshape:
         broken.append(("theorem-shape-hypothesis", "%d decoded cases do not satisfy the operand shape a refinement theorem "
                        "assumes, e.g. %s" % (len(badshape), badshape[0])))
